@@ -146,7 +146,7 @@ fn gen_value(ctx: &mut Ctx, depth: u32) -> String {
         5 => (*ctx.rng.pick(&["abc", "GOOG", "a_b", "BATCH", "hello world"])).to_string(),
         6 => ctx.rng.range(0, 9).to_string(),
         7 => format!("\"{}\"", ctx.rng.below(1000)),
-        8 => format!("{}", ctx.rng.range(i64::MIN / 2, i64::MAX / 2)),
+        8 => format!("{}", (ctx.rng.next() as i64) >> 1),
         _ => {
             let n = ctx.rng.below(4);
             let items: Vec<String> = (0..n).map(|_| gen_value(ctx, depth + 1)).collect();
